@@ -8,7 +8,7 @@
      BiTargetCheckGeometry::isOK            /repo/src/Geometry/BiTargetCheckGeometry.cpp:96
      BiTargetCheckDate::isOK                /repo/src/Geometry/BiTargetCheckDate.cpp:57
      DirParam::getLagRank / getMaximumDistance   /repo/src/Variogram/DirParam.cpp:422 / 253   (regular lags)
-     AVario::_evaluate{Variogram,Madogram,Poisson,Covariance,Covariogram,Order4}   /repo/src/Variogram/AVario.cpp:41-229
+     AVario::_evaluate{Variogram,Madogram,Rodogram,Poisson,Covariance,Covariogram,Order4}   /repo/src/Variogram/AVario.cpp:41-229
      Vario::_setResult / getDirAddress      Vario.cpp:3717 / 1732
      Vario::_rescale / _centerCovariance / _patchC00 / _getStatistics(mean)   Vario.cpp:4279 / 3772 / 2810 / 2987
    Every finite double is a rational; square roots never decide anything here: decisions are taken on
@@ -29,7 +29,7 @@ Record sample := { s_x : list Q;            (* coordinates (locator x1..) *)
                    s_date : option Q;       (* date column, None = TEST *)
                    s_z : list (option Q) }. (* variables z1.., None = TEST *)
 
-Inductive calc := Vg | Cov | CovNC | Covg | Mado | Order4 | Poisson.
+Inductive calc := Vg | Cov | CovNC | Covg | Mado | Rodo | Order4 | Poisson.
 Definition is_asym (c : calc) : bool := match c with Cov | CovNC | Covg => true | _ => false end.   (* Vario::_setFlagAsym 2120 *)
 
 Record dirp := { d_npas : nat; d_dpas : Q; d_tol : Q;
@@ -211,6 +211,8 @@ Definition eval_asym (npas : nat) (pc : pctx) (a b : sample) (ww : Q) (iv : nat)
 
 Definition phi_vg (u v : Q) : Q * Q := (u * v / 2, u * v / 2).
 Definition phi_mado (u v : Q) : Q * Q := (sqrt_lo (Qabs (u * v)) / 2, sqrt_hi (Qabs (u * v)) / 2).
+(* rodogram: |u v|^(1/4) / 2 through two nested square-root enclosures *)
+Definition phi_rodo (u v : Q) : Q * Q := (sqrt_lo (sqrt_lo (Qabs (u * v))) / 2, sqrt_hi (sqrt_hi (Qabs (u * v))) / 2).
 Definition phi_o4 (u v : Q) : Q * Q := (u * v * (u * v) / 2, u * v * (u * v) / 2).
 
 Definition evaluate (cf : cfg) (npas : nat) (means : list Q) (pc : pctx) (a b : sample) : list upd :=
@@ -219,6 +221,7 @@ Definition evaluate (cf : cfg) (npas : nat) (means : list Q) (pc : pctx) (a b : 
   match c_calc cf with
   | Vg => flat_map (eval_sym npas pc a b (w1 * w2) phi_vg (fun _ => 0)) ivs
   | Mado => flat_map (eval_sym npas pc a b (w1 * w2) phi_mado (fun _ => 0)) ivs
+  | Rodo => flat_map (eval_sym npas pc a b (w1 * w2) phi_rodo (fun _ => 0)) ivs
   | Order4 => flat_map (eval_sym npas pc a b (w1 * w2) phi_o4 (fun _ => 0)) ivs
   | Poisson => flat_map (eval_sym npas pc a b (w1 * w2 / (w1 + w2)) phi_vg
                                   (fun iv => - nth iv means 0 / 2)) ivs    (* _setResult: gg += -getMean(ivar)/2 *)
